@@ -485,10 +485,11 @@ func (x *Exec) execInstr(fr *Frame, n *Node, st *State, in ssa.Instruction) *Nod
 		r := x.allocRef(n, st, "chan")
 		fr.vals[in] = Term{S: r, Sort: SInt, T: in.Type()}
 	case *ssa.MapUpdate:
-		x.atAsserts(fr, n, st, "store", []string{"mapupdate"}, in)
 		m := x.val(fr, n, st, in.Map)
 		k := x.val(fr, n, st, in.Key)
 		v := x.val(fr, n, st, in.Value)
+		// arg0 = the map, arg1 = the key, arg2 = the value
+		x.atAsserts(fr, n, st, "store", []string{"mapupdate"}, in, m, k, v)
 		mt, ok := types.Unalias(in.Map.Type()).Underlying().(*types.Map)
 		if !ok {
 			break
@@ -684,6 +685,8 @@ func (x *Exec) execLookup(fr *Frame, n *Node, st *State, in *ssa.Lookup) {
 		x.setVal(fr, n, in, Term{S: app("u_sat", xv.S, k.S), Sort: SInt})
 		return
 	}
+	// "at lookup map[#k] assert P": arg0 = the map, arg1 = the key
+	x.atAsserts(fr, n, st, "lookup", []string{"map"}, in, xv, k)
 	d, vv := x.heapMap(mt)
 	has := mkAnd(mkNot(app("=", xv.S, "0")), app("select", app("select", x.get(st, d).S, xv.S), k.S))
 	val := mkIte(has, app("select", app("select", x.get(st, vv).S, xv.S), k.S), x.ss.zero(mt.Elem()).S)
